@@ -86,6 +86,10 @@ func (s *NativeStaking) DeclareValidator(val string) {
 	}
 }
 
+func (s *NativeStaking) GetValidator(ctx sdk.Context, v sdk.ValAddress) (stakingtypes.Validator, bool) {
+	return s.w.App.StakingKeeper.GetValidator(ctx, v)
+}
+
 func (s *NativeStaking) Delegation(ctx sdk.Context, d sdk.AccAddress, v sdk.ValAddress) stakingtypes.DelegationI {
 	return s.w.App.StakingKeeper.Delegation(ctx, d, v)
 }
@@ -170,14 +174,21 @@ func NewWorld() *World {
 	c := sym.Current
 	if c != nil {
 		if p, ok := c.Params["node"]; ok {
-			var np nodetypes.Params
-			a.AppCodec().MustUnmarshalJSON(p, &np)
-			a.NodeKeeper.SetParams(ctx, np)
+			func() {
+				// a parameter set the real validators reject is not a reachable configuration: keep the defaults
+				defer func() { recover() }()
+				var np nodetypes.Params
+				a.AppCodec().MustUnmarshalJSON(p, &np)
+				a.NodeKeeper.SetParams(ctx, np)
+			}()
 		}
 		if p, ok := c.Params["did"]; ok {
-			var dp didtypes.Params
-			a.AppCodec().MustUnmarshalJSON(p, &dp)
-			a.DidKeeper.SetParams(ctx, dp)
+			func() {
+				defer func() { recover() }()
+				var dp didtypes.Params
+				a.AppCodec().MustUnmarshalJSON(p, &dp)
+				a.DidKeeper.SetParams(ctx, dp)
+			}()
 		}
 		for _, sc := range c.Stores {
 			key, err := hex.DecodeString(sc.KeyHex)
